@@ -101,10 +101,8 @@ class OracleTracker(Monitor):
         # after a failure the definition prescribes no further scheduling, but completions of
         # still-running actions are followed so that documented clean-up tasks are known
         new = env.orc.complete(act.task, act.due.ctx, ok, bits, tokens)
-        if not env.orc_stopped:
-            env.due.extend(new)
-        else:
-            env.due.extend(d for d in new if d.task in env.orc.cleanup)
+        # (entries that become due after the workflow stopped are kept: they are "work still due")
+        env.due.extend(new)
         if env.orc.failed:
             env.orc_stopped = True
 
@@ -690,3 +688,71 @@ class C06Context(OracleTracker):
             elif not live:
                 if out.get(v) is not None:
                     self.fail(env, "output-leak", "C06 output %s is %r although no terminal task received it" % (v, out.get(v)), var=v)
+
+
+def descendants(wf, tasks):
+    out, todo = set(), list(tasks)
+    while todo:
+        x = todo.pop()
+        if x not in wf.tasks:
+            continue
+        for _, _, do in wf.transitions(x):
+            for t in do:
+                if t in wf.tasks and t not in out:
+                    out.add(t)
+                    todo.append(t)
+    return out
+
+
+class C17Rerun(Monitor):
+    prop = "C17"
+
+    def on_rerun(self, env, names, rejected, before):
+        ghost = any(n.startswith("ghost/") for n in names)
+        count(env, "c17_requests")
+        if rejected is not None:
+            count(env, "c17_rejected")
+            if env.snapshot() != before:
+                self.fail(env, "rejected-rerun-effect", "C17 rerun request %s was rejected (%s) but changed the persisted state" % (names, type(rejected).__name__))
+            if not ghost and env.rerun_before_status in COMPLETED:
+                self.fail(env, "rerun-wrongly-rejected", "C17 rerun request %s for existing task executions of a %s workflow was rejected: %s" % (names, env.rerun_before_status, rejected))
+            return
+        if ghost:
+            self.fail(env, "rerun-ghost-accepted", "C17 rerun request %s names a task execution that does not exist but was accepted" % names)
+        if env.rerun_before_status not in COMPLETED:
+            self.fail(env, "rerun-active-accepted", "C17 rerun accepted while the workflow was %s" % env.rerun_before_status)
+        wf = env.wf
+        if names:
+            targets = {n.split("/")[0] for n in names}
+        else:
+            targets = {e["id"] for e in json.loads(before)["state"]["sequence"] if e.get("term") and e.get("status") in ABENDED and e["id"] in wf.tasks}
+        due = {d.task for d in getattr(env, "due", []) if not d.matched}
+        if env.status() != S.RESUMING:
+            # nothing to re-execute and nothing still due: the request may leave everything as it is
+            if targets or due or env.snapshot() != before:
+                self.fail(env, "not-resuming", "C17 accepted rerun of %s left the workflow %s, not resuming" % (sorted(targets) or "nothing", env.status()), status=env.status())
+            env.rerun_rejected = "noop"
+            return
+        env.rerun_targets = targets
+        env.rerun_allowed = targets | descendants(wf, targets) | due | descendants(wf, due)
+
+    def on_started(self, env, act):
+        if not env.rerun_done or env.rerun_rejected is not None:
+            return
+        count(env, "c17_reexecuted")
+        if act.task not in env.rerun_allowed:
+            self.fail(env, "repeated-completed-work", "C17 %s was executed again although it was neither requested (%s), nor downstream of a requested task, nor still due" % (act.label(), sorted(env.rerun_targets)), task=act.task)
+
+    def on_quiescent(self, env):
+        if env.rerun_done and env.rerun_rejected is None:
+            st = env.status()
+            if st not in COMPLETED and st != S.PAUSED and not env.c.get_next_tasks():
+                self.fail(env, "rerun-idle", "C17 the accepted rerun left the workflow %s with nothing in flight and nothing on offer" % st, status=st)
+
+    def on_end(self, env, complete):
+        if not complete or not env.rerun_done or env.rerun_rejected is not None:
+            return
+        redone = {a.task for a in env.started[env.rerun_mark:]}
+        for t in env.rerun_targets:
+            if t not in redone:
+                self.fail(env, "requested-not-reexecuted", "C17 %s was requested for rerun but not executed again (re-executed: %s)" % (t, sorted(redone)), task=t)
